@@ -909,8 +909,8 @@ def _cmp_decide(n, dkey, v, consts=None):
         a, b = n["c"]
         if op in ("==", "!=", "<", ">", "<=", ">="):
             dk0 = dkey if isinstance(dkey, (set, frozenset)) else {dkey}
-            if const_value(a) is None and const_value(b) is None:
-                # both sides are expressions over the dispatch value, e.g. `(int) c == ((int) c & 127)`
+            if True:
+                # sides that are expressions over the dispatch value, e.g. `(int) c == ((int) c & 127)`, `(c & 0xC0) == 0x80`
                 mentions = any(key(x) in dk0 for x in walk(a)) or any(key(x) in dk0 for x in walk(b))
                 if mentions:
                     ea, eb = _eval_num(a, dk0, v), _eval_num(b, dk0, v)
